@@ -838,6 +838,6 @@ func init() {
 		Level:       "other",
 		Explanation: "Structural necessary conditions of POSIX record-lock semantics: the complete decision table of the conflict test (all 2*3*3*3*3*3 orderings of its six comparisons); Set with a locking type only after Test of the same lock under one locksLock section, unlocks span the documented whole-file range; owner identity (every owner handed to the lock table is the address of the per-owner state object, created objects are registered, no never-populated owner map); returned count deltas reach lockCount and asserting removal is gated. The split/merge algorithm of Set versus a per-byte model and offset arithmetic are not decided.",
 		Assumptions: []string{"lock entries stay sorted by start (Set's algorithm, not decided here)"},
-		Rules:       []RuleFunc{c20Test, c20TestThenSet, c20Owner, c20Count, c20Sorted, c18PoolEntry, c20LockTableInit, c20FileCountBalance},
+		Rules:       []RuleFunc{c20Test, c20TestThenSet, c20Owner, c20Count, c20Sorted, c18PoolEntry, c20LockTableInit, c20FileCountBalance, c20OwnerEmptiness},
 	})
 }
